@@ -220,6 +220,46 @@ def run(ctx):
                 found.append({'op': 'tensordot->scalar', 'a': describe(a), 'b': describe(b), 'axes': [axa_in, axb_in],
                               'got': complex(s), 'expected': complex(want),
                               'replay': rl.record('tensordot_scalar', {'a': a, 'b': b}, {'symmetry': sym, 'axes': [axa_in, axb_in]})})
+    # ---- an operand with a free leg that was fused beforehand: the result keeps that leg as it is (same rank as
+    #      the dense contraction of the fused operands) in every mode (dense oracle only: Model.Array.tdot_fused is
+    #      the pre-fix model; the current one, Fused.tdot_fused2, is tied in C06)
+    for k in range(n_cases // 6):
+        sym = SYMS[k % len(SYMS)]
+        try:
+            cm = [gen.rand_chargemap(rng, sym, maxcharges=2, maxsize=2) for _ in range(4)]
+            du = [rng.random() < 0.5 for _ in range(4)]
+            a0 = gen.rand_array(rng, sr, sym, chargemaps=cm[:3], duals=du[:3], lo=-2, hi=2, keep=rng.choice([1.0, 0.7]), maxsize=2)
+            if not a0.blocks:
+                continue
+            g = rng.sample(range(3), 2)
+            a = a0.fuse(tuple(g))
+            free_fused = min(g)
+            con = [i for i in range(3) if i not in g][0]
+            con_new = 0 if free_fused > 0 and con < free_fused else (1 if con > free_fused else 0)
+            con_new = [i for i in range(a.ndim) if a.indices[i].subinfo is None][0]
+            cmb = [dict(a.indices[con_new].chargemap), cm[3]]
+            dub = [not a.indices[con_new].dual, du[3]]
+            sa = rng.choice(list(a.blocks))
+            sbq = refsym.csum(sym, [refsym.signed(sym, sa[con_new], dub[0]), refsym.signed(sym, rng.choice(sorted(cmb[1])), dub[1])])
+            b = gen.rand_array(rng, sr, sym, chargemaps=cmb, duals=dub, charge=sbq, lo=-2, hi=2, keep=1.0, maxsize=2)
+        except Exception as e:
+            found.append({'op': 'setup of a pre-fused operand', 'symmetry': sym, 'raised': '%s: %s' % (type(e).__name__, e)})
+            continue
+        stats['prefused_free_leg'] = stats.get('prefused_free_leg', 0) + 1
+        for (x, y, ax, ay) in ((a, b, [con_new], [0]), (b, a, [0], [con_new])):
+            for mode in ('blockwise', 'fused', 'auto'):
+                ctx.count()
+                try:
+                    c = sr.tensordot(x, y, axes=(ax, ay), mode=mode, preserve_array=True)
+                    bad = dense_oracle(x, y, ax, ay, c)
+                    if bad is None and c.ndim != x.ndim + y.ndim - 2:
+                        bad = {'error': 'rank %d, expected %d' % (c.ndim, x.ndim + y.ndim - 2)}
+                except Exception as e:
+                    bad = {'raised': '%s: %s' % (type(e).__name__, e)}
+                if bad is not None:
+                    found.append({'op': 'tensordot (operand with a pre-fused free leg)', 'mode': mode, 'symmetry': sym, 'a': describe(x), 'b': describe(y),
+                                  'axes': [ax, ay], 'fused_beforehand': g, **bad})
+        ctx.nontrivial(('prefused', sym, str(sorted(a.blocks)), str(g)))
     # ---- matmul / trace / einsum
     for k in range(n_cases // 3):
         sym = SYMS[k % len(SYMS)]
